@@ -49,6 +49,7 @@ type Contract struct {
 	LoopDec    map[int]*Clause
 	LoopMods   map[int][]string
 	Modifies   []string
+	GuardedFree map[string]string // captured variable -> captured mutex that must be held when it is accessed
 	RangeOver  map[int]*Clause // loop ordinal -> required `for range <name>` form
 	CallAsserts map[string][]*Clause // callee -> assertions checked just before each call of it
 	ModAt      map[string][]string // component spelling -> address expressions (only these objects change)
@@ -73,8 +74,10 @@ type Contract struct {
 
 type GlobalDecl struct {
 	Pkg, Name string
-	Kind      string // guarded_by, init-only, immutable
+	Kind      string // guarded_by, init-only, immutable, mutex
 	Mutex     string
+	Writers   []string
+	Props     []string
 }
 
 type LemmaDecl struct {
@@ -157,7 +160,7 @@ func (g *Gen) loadContractFile(path string) error {
 		word, rest := splitWord(body)
 		switch word {
 		case "func":
-			cur = &Contract{Pkg: pkg, Func: rest, LoopInv: map[int][]*Clause{}, LoopDec: map[int]*Clause{}, LoopMods: map[int][]string{}, Absorbs: map[string]string{}, Unordered: map[string]string{}, RangeOver: map[int]*Clause{}, CallAsserts: map[string][]*Clause{}, SafetyAt: map[string][]string{}, ModAt: map[string][]string{}, File: path, Line: ln}
+			cur = &Contract{Pkg: pkg, Func: rest, LoopInv: map[int][]*Clause{}, LoopDec: map[int]*Clause{}, LoopMods: map[int][]string{}, Absorbs: map[string]string{}, Unordered: map[string]string{}, GuardedFree: map[string]string{}, RangeOver: map[int]*Clause{}, CallAsserts: map[string][]*Clause{}, SafetyAt: map[string][]string{}, ModAt: map[string][]string{}, File: path, Line: ln}
 			key := pkg + "." + rest
 			if _, dup := g.contracts[key]; dup {
 				return fmt.Errorf("%s:%d: duplicate contract for %s", path, ln, key)
@@ -181,6 +184,14 @@ func (g *Gen) loadContractFile(path string) error {
 			gd := &GlobalDecl{Pkg: pkg, Name: f[0], Kind: f[1]}
 			if f[1] == "guarded_by" && len(f) > 2 {
 				gd.Mutex = f[2]
+			}
+			for i, w := range f {
+				if w == "writers" {
+					gd.Writers = append(gd.Writers, f[i+1:]...)
+				}
+				if m := regexp.MustCompile(`^\[([A-Z0-9, ]+)\]$`).FindStringSubmatch(w); m != nil {
+					gd.Props = append(gd.Props, parseProps(m[1])...)
+				}
 			}
 			g.globalsDecl[pkg+"."+f[0]] = gd
 		case "lemma":
@@ -275,6 +286,16 @@ func (g *Gen) loadContractFile(path string) error {
 			}
 			cur.CallAsserts[callee] = append(cur.CallAsserts[callee], cl)
 			lastClause = cl
+		case "guarded":
+			// guarded <var> [<var>...] by <mutex> : captured variables shared between goroutines
+			f := strings.Fields(rest)
+			for i, w := range f {
+				if w == "by" && i+1 < len(f) {
+					for _, v := range f[:i] {
+						cur.GuardedFree[strings.TrimSuffix(v, ",")] = f[i+1]
+					}
+				}
+			}
 		case "assume-userfn":
 			cur.AssumeUserFn = true
 		case "unordered":
@@ -355,7 +376,7 @@ func (g *Gen) contractFor(canon string) *Contract {
 			return s
 		}
 		c = &Contract{Pkg: pkg, Func: strings.TrimPrefix(canon, pkg+"."), LoopInv: map[int][]*Clause{}, LoopDec: map[int]*Clause{}, LoopMods: map[int][]string{},
-			Absorbs: map[string]string{}, Unordered: map[string]string{}, RangeOver: map[int]*Clause{}, CallAsserts: map[string][]*Clause{}, SafetyAt: map[string][]string{}, ModAt: map[string][]string{}, Synth: true}
+			Absorbs: map[string]string{}, Unordered: map[string]string{}, GuardedFree: map[string]string{}, RangeOver: map[int]*Clause{}, CallAsserts: map[string][]*Clause{}, SafetyAt: map[string][]string{}, ModAt: map[string][]string{}, Synth: true}
 		g.synth[canon] = c
 	}
 	if !c.defaultsApplied {
